@@ -16,6 +16,7 @@ except that depth > 1023 is the caller's business.
 import hashlib
 from hypothesis import strategies as st
 from harness.ref import refcell as rc
+from harness.core import describe
 
 BOUNDARY_LENS = [0, 1, 2, 7, 8, 9, 15, 16, 17, 255, 256, 257, 1015, 1016, 1017, 1022, 1023]
 
@@ -251,6 +252,10 @@ def disturb(lib, budget=4):
             lambda: (lambda s: (s.to_cell(), s.skip_bits(min(5, len(s.bits)))))(c.to_slice()),
             lambda: c.copy().to_builder().store_ref(leaf),
             lambda: c.order(),
+            # the caller logs what it holds: the cell, a slice of it that was partly read, a builder taken from it
+            lambda: describe(c),
+            lambda: (lambda s: (s.load_bits(min(2, len(s.bits))), s.load_ref() if s.refs else None, describe(s)))(c.begin_parse()),
+            lambda: describe(c.to_builder()),
         ):
             try:
                 f()
